@@ -127,8 +127,50 @@ def check(run, only=None):
             case["_src"] = common.show(src)
             run.mismatch("C20 %s: %s" % (v["fam"], why.split(":")[0]), case, why, expected=e, observed=g)
     run.traces += len(vecs)
+    if only is None:
+        token_positions(run, 60000 if thorough else 1500)
+
+
+def token_positions(run, n):
+    """binding T: token streams of the real tokeniser on seeded random sources, accepted by C20_Trace.tla"""
+    cases = [dict(c, k="lex") for c in common.run_gen("c01", n, run.seed * 17 + 3, run.tier)]
+    obs, hooks = common.run_pool(cases, deadline_ms=4000)
+    if not hooks:
+        run.extra["token_position_traces"] = "skipped: tree does not build with -tags verif"
+        return
+    events, idx = [], []
+    for c in cases:
+        o = obs[c["id"]]
+        if o["st"] != "ok" or not o["obs"].get("tokens"):
+            continue            # termination is C01's subject
+        src = bytes(c["src"])
+        # inside an unclosed "#{" the tokeniser stops at the end of the string literal (not the whole source)
+        events.append({"src": c["src"], "tokens": o["obs"]["tokens"], "interp": b"#{" in src})
+        idx.append(c)
+        run.count(b"T" + src, b"\n" in src)
+    rej, cnt = common.validate_trace("C20_Trace", events, batch=4000)
+    run.traces += cnt
+    run.extra["token_position_traces"] = cnt
+    for i, why in rej:
+        c = idx[i]
+        case = dict(c)
+        case["_src"] = common.show(bytes(c["src"]))
+        run.mismatch("C20 token stream: %s" % why, case, "token stream rejected by C20_Trace: " + why,
+                     observed=[(t["typ"], common.show(bytes(t["val"])), t["line"], t["col"]) for t in events[i]["tokens"]][:40])
 
 
 def replay(run, path):
     m = json.load(open(path))
-    check(run, only=[{k: x for k, x in m["case"].items() if not k.startswith("_")}])
+    case = {k: x for k, x in m["case"].items() if not k.startswith("_")}
+    if case.get("k") == "lex":
+        obs, _ = common.run_pool([case])
+        o = obs[case["id"]]
+        ev = {"src": case["src"], "tokens": o["obs"]["tokens"], "interp": b"#{" in bytes(case["src"])}
+        rej, _ = common.validate_trace("C20_Trace", [ev])
+        for i, why in rej:
+            run.mismatch(m["sig"], case, why)
+        run.count(b"a", True)
+        run.count(b"b", True)
+        run.sample(common.show(bytes(case["src"])))
+        return
+    check(run, only=[case])
